@@ -52,7 +52,7 @@ Pred(s) == CASE s = "from" -> "call" [] s = "where" -> "from" [] s = "group" -> 
              [] s = "window" -> "order" [] OTHER -> "?"
 
 Computed(s) ==
-    CASE s = "from"     -> (IF q.k = "union" THEN RunQ([q EXCEPT !.all = TRUE, !.limit = -1, !.offset = -1], doc) ELSE Source(q.from, data))
+    CASE s = "from"     -> (IF q.k = "union" THEN RunQ([x \in DOMAIN q \ {"order"} |-> IF x = "all" THEN TRUE ELSE IF x \in {"limit", "offset"} THEN -1 ELSE q[x]], doc) ELSE Source(q.from, data))
       [] s = "where"    -> (IF q.k = "union" THEN ArrV(work) ELSE StWhere(q, data, work))
       [] s = "group"    -> (IF q.k = "union" THEN ArrV(work) ELSE StGroup(q, data, work))
       [] s = "select"   -> (IF q.k = "union" THEN ArrV(work) ELSE StSelect(q, data, work))
@@ -67,7 +67,7 @@ Computed(s) ==
 Keyseq(rows, keys) == [i \in 1..Len(rows) |-> KeyTuple(rows[i], keys)]
 SubBag(a, b) == \A i \in DOMAIN a : Count(a, a[i]) <= Count(b, a[i])
 ApiOK(rows, want) ==
-    IF q.k = "union" THEN rows = want
+    IF q.k = "union" THEN (IF UOrder(q) = <<>> THEN rows = want ELSE Keyseq(rows, UOrder(q)) = Keyseq(want, UOrder(q)) /\ BagEq(rows, want))
     ELSE IF q.order # <<>>
     THEN LET full == RunQ([q EXCEPT !.limit = -1, !.offset = -1], doc)
          IN  /\ Keyseq(rows, q.order) = Keyseq(want, q.order)
@@ -85,7 +85,7 @@ StageEv ==
     /\ LET s == Ev_.st IN
        /\ Note(Pred(s) = st \/ (s = "window" /\ st = "order"), "stage out of order", [got |-> s, after |-> st])
        /\ IF s = "order"
-          THEN LET keys == IF q.k = "union" THEN <<>> ELSE q.order
+          THEN LET keys == IF q.k = "union" THEN UOrder(q) ELSE q.order
                IN  Note(IF keys = <<>> THEN Ev_.rows = work ELSE OrderOK(work, Ev_.rows, keys),
                         "order", [in |-> work])
           ELSE LET c == Computed(s)
